@@ -171,47 +171,109 @@ def signature(pid, code, idx, trace):
         return "%s/%d/overdue" % (pid, code)
     if code in (201, 202, 701, 702, 704):
         # root cause of an unbacked / doubled / lost claim: the latest event before it that destroyed or replaced a record
-        ops = {}
-        for k in range(min(idx, len(trace) - 1), -1, -1):
-            f = trace[k].split()
-            if f[1] in ("expire", "extput", "extdel"):
-                return "%s/%d/after-%s" % (pid, code, f[1])
-            if f[1] == "apply" and f[3] == "0":
-                op = f[2]
-                for kk, l in enumerate(trace[:k]):
-                    g = l.split()
-                    if g[1] == "issue" and g[3] == op:
-                        if g[4] == "4":
-                            # whose record did the Delete remove? (the issuer of the latest successful Create/Update before it)
-                            deleter, owner = g[2], None
-                            for j in range(k - 1, -1, -1):
-                                h = trace[j].split()
-                                if h[1] == "apply" and h[3] == "0":
-                                    for l2 in trace[:j]:
-                                        g2 = l2.split()
-                                        if g2[1] == "issue" and g2[3] == h[2]:
-                                            if g2[4] in ("1", "2"):
-                                                owner = g2[2]
-                                            break
-                                    if owner is not None:
-                                        break
-                                if h[1] in ("extput",):
-                                    owner = "ext"
-                                    break
-                            if owner == deleter:
-                                # the owner released its own record: not the stale-delete situation of D5
-                                return "%s/%d/after-own-delete" % (pid, code)
-                            if not delete_was_checked(trace, kk, deleter):
-                                return "%s/%d/after-unchecked-delete" % (pid, code)
-                            return "%s/%d/after-site%s-kind4" % (pid, code, g[5])
-                        if g[4] == "2" and g[5] == "2":
-                            return "%s/%d/after-site2-kind2" % (pid, code)
-                        break
-        return "%s/%d/no-record-event" % (pid, code)
+        # OF THE SAME KEY (several groups share a bucket)
+        issues = {}      # op -> fields of its issue line, index
+        keyof = {}       # instance -> key
+        for kk, l in enumerate(trace[:idx + 1]):
+            g = l.split()
+            if len(g) > 8 and g[1] == "issue":
+                issues[g[3]] = (g, kk)
+            elif len(g) > 3 and g[1] == "instdef":
+                keyof[g[2]] = g[3]
+        f0 = trace[min(idx, len(trace) - 1)].split()
+        keys = []
+        if code in (201, 202):
+            # clauses about the whole bucket, raised at whatever observation comes next: the keys concerned are those with a
+            # claimant the live record does not name (202) or with two claimants (201), reconstructed from the trace
+            flag, owner = {}, {}
+            for l in trace[:idx + 1]:
+                g = l.split()
+                if g[1] == "flag":
+                    flag[g[2]] = g[3] == "1"
+                elif g[1] == "apply" and g[3] == "0" and g[2] in issues:
+                    q = issues[g[2]][0]
+                    if q[4] in ("1", "2"):
+                        owner[q[8]] = q[2]
+                    elif q[4] == "4":
+                        owner[q[8]] = None
+                elif g[1] == "extput":
+                    owner[g[2]] = "ext"
+                elif g[1] in ("extdel", "expire"):
+                    owner[g[2]] = None
+            for i2, fl in sorted(flag.items()):
+                if fl and i2 in keyof:
+                    k2 = keyof[i2]
+                    others = [j for j, fj in flag.items() if fj and j != i2 and keyof.get(j) == k2]
+                    if (code == 202 and owner.get(k2) != i2) or (code == 201 and others):
+                        if k2 not in keys:
+                            keys.append(k2)
+        elif f0[1] == "apply" and f0[2] in issues:
+            keys = [issues[f0[2]][0][8]]
+        elif len(f0) > 2 and f0[2] in keyof and f0[1] not in ("expire", "extput", "extdel"):
+            keys = [keyof[f0[2]]]
+        elif f0[1] in ("expire", "extput", "extdel"):
+            keys = [f0[2]]
+        if not keys:
+            keys = [None]
+        sigs = [_record_cause(pid, code, idx, trace, issues, k2) for k2 in keys]
+        # several keys concerned: a cause that is not the recorded finding D5 is reported first
+        sigs.sort(key=lambda x: x.endswith("after-site7-kind4"))
+        return sigs[0]
     try:
         t, kind, a = parse_ev(trace[idx])
     except Exception:
         return "%s/%d/?" % (pid, code)
+    return _signature_rest(pid, code, idx, trace, kind, a)
+
+
+def _record_cause(pid, code, idx, trace, issues, key):
+    """The latest event before idx that destroyed or replaced a record of `key` (None: any key)."""
+    def on_key(k2):
+        return key is None or k2 == key
+    if True:
+        for k in range(min(idx, len(trace) - 1), -1, -1):
+            f = trace[k].split()
+            if f[1] in ("expire", "extput", "extdel"):
+                if on_key(f[2]):
+                    return "%s/%d/after-%s" % (pid, code, f[1])
+                continue
+            if f[1] == "apply" and f[3] == "0" and f[2] in issues:
+                g, kk = issues[f[2]]
+                if not on_key(g[8]):
+                    continue
+                if g[4] == "4":
+                    # whose record did the Delete remove? (the issuer of the latest successful Create/Update of that key before it)
+                    deleter, owner = g[2], None
+                    for j in range(k - 1, -1, -1):
+                        h = trace[j].split()
+                        if h[1] == "apply" and h[3] == "0" and h[2] in issues:
+                            g2 = issues[h[2]][0]
+                            if g2[8] == g[8] and g2[4] in ("1", "2"):
+                                owner = g2[2]
+                                break
+                            if g2[8] == g[8] and g2[4] == "4":
+                                owner = "nobody"      # the key had already been vacated
+                                break
+                        if h[1] == "extput" and h[2] == g[8]:
+                            owner = "ext"
+                            break
+                        if h[1] in ("extdel", "expire") and h[2] == g[8]:
+                            owner = "nobody"
+                            break
+                    if owner == "nobody":
+                        continue                      # this Delete removed nothing: look further back
+                    if owner == deleter:
+                        # the owner released its own record: not the stale-delete situation of D5
+                        return "%s/%d/after-own-delete" % (pid, code)
+                    if not delete_was_checked(trace, kk, deleter):
+                        return "%s/%d/after-unchecked-delete" % (pid, code)
+                    return "%s/%d/after-site%s-kind4" % (pid, code, g[5])
+                if g[4] == "2" and g[5] == "2":
+                    return "%s/%d/after-site2-kind2" % (pid, code)
+        return "%s/%d/no-record-event" % (pid, code)
+
+
+def _signature_rest(pid, code, idx, trace, kind, a):
     cause = kind
     if kind == "apply":
         op = a[0]
